@@ -413,6 +413,80 @@ func runC11(c *eng.Ctx) {
 			r5.Check(ok, en.Key+" link-key", en.Decl.Pos(), "ScheduleLinks[config.ScheduleEntry.Id]", "schedule links are not keyed by the binding's unique id")
 		}
 	}
+
+	// ---- R6 every tick asks every schedule hook
+	r6 := c.Rule("C11.R6", "B:must-pass", "Manager.HandleScheduleEvent: on every path every hook registered for schedule bindings is asked CanHandleScheduleEvent for this tick (the answer depends on which bindings are enabled now and must not be remembered)", 1)
+	if f := r6.NeedFunc(pkgHook + ".(*Manager).HandleScheduleEvent"); f != nil {
+		canHandle := p.Method(pkgCtrl, "HookController", "CanHandleScheduleEvent")
+		inOrder := p.Field(pkgHook, "Manager", "hooksInOrder")
+		getInOrder := p.Method(pkgHook, "Manager", "GetHooksInOrder")
+		// loops of fn over the schedule hooks in every iteration of which CanHandleScheduleEvent(<string param>) is called
+		askLoops := func(fn *eng.Func) []ast.Stmt {
+			info := fn.Pkg.TypesInfo
+			g := p.GraphOf(fn)
+			var out []ast.Stmt
+			for _, el := range elemLoopsOver(info, fn.Decl.Body, func(x ast.Expr) bool {
+				if ix, ok := ast.Unparen(x).(*ast.IndexExpr); ok && eng.IsField(info, ix.X, inOrder) {
+					return true
+				}
+				if isCallTo(info, x, getInOrder) {
+					return true
+				}
+				if v, isV := eng.SelObj(info, x).(*types.Var); isV && !v.IsField() {
+					for _, e := range eng.AssignedExprs(info, fn.Decl.Body, v) {
+						if isCallTo(info, e, getInOrder) {
+							return true
+						}
+						if ix, ok := ast.Unparen(e).(*ast.IndexExpr); ok && eng.IsField(info, ix.X, inOrder) {
+							return true
+						}
+					}
+				}
+				return false
+			}) {
+				if loopNoEarlyExit(g, el.Stmt) && loopBodyMustPass(g, el.Stmt, func(n *eng.GNode) bool { return len(g.CallsAt(n, isObj(canHandle))) > 0 }) {
+					out = append(out, el.Stmt)
+				}
+			}
+			return out
+		}
+		mustAsk := func(fn *eng.Func, helpers map[*eng.Func]bool) bool {
+			g := p.GraphOf(fn)
+			info := fn.Pkg.TypesInfo
+			var heads []func(*eng.GNode) bool
+			for _, l := range askLoops(fn) {
+				heads = append(heads, isLoopHeadOf(l))
+			}
+			pred := func(n *eng.GNode) bool {
+				for _, h := range heads {
+					if h(n) {
+						return true
+					}
+				}
+				if n.Node == nil || helpers == nil {
+					return false
+				}
+				for _, m := range g.CallsAt(n, func(o types.Object, _ *ast.CallExpr) bool {
+					fo, ok := o.(*types.Func)
+					return ok && helpers[p.FuncOf(fo)]
+				}) {
+					_ = m
+					return true
+				}
+				_ = info
+				return false
+			}
+			return g.MustPassToExit(eng.Query{FromEntry: true}, pred) == nil
+		}
+		helpers := map[*eng.Func]bool{}
+		for _, hf := range funcsOfPkg(p, pkgHook) {
+			if hf != f && hf.Decl.Body != nil && hf.Obj != nil && eng.RecvNamed(hf.Obj) == eng.RecvNamed(f.Obj) && mustAsk(hf, nil) {
+				helpers[hf] = true
+			}
+		}
+		r6.Check(mustAsk(f, helpers), f.Key+" asks every schedule hook on every tick", f.Decl.Pos(), "a loop over the hooks with schedule bindings calling CanHandleScheduleEvent lies on every path",
+			"a tick can be dispatched without asking every schedule hook whether it handles this crontab now (e.g. the list of hooks per crontab is computed once and remembered): hooks whose schedule bindings are enabled later never receive tasks for a crontab that already fired")
+	}
 }
 
 func firstRange(body *ast.BlockStmt) *ast.RangeStmt {
